@@ -13,6 +13,8 @@ THEOREMS = {
     "C06": ["C06_typed_vs_generic", "C06_never_wrong_type", "C06_type_identity", "C06_dispatch", "C06_try_from",
             "C06_from_tryfrom", "C06_bulk"],
     "C07": ["C07_open", "C07_index_parse", "C07_no_panic", "C07_record", "C07_bounded_index", "C07_bounded_noindex"],
+    "C13": ["C13_truncation", "C13_truncated_header", "C13_inside_is_prefix", "C13_record_cut", "C13_fault", "C13_fault_open",
+            "C13_short_reads"],
     "C03": ["C03_record", "C03_decodes_conformant"],
     "C09": ["C09_finalize_irrelevant", "C09_files", "C09_finalize_complete", "C09_clean_finalize_silent"],
     "C10": ["C10_reject", "C10_erase"],
@@ -25,7 +27,9 @@ THEOREMS = {
 # theorems whose statement mentions the orientation test (Flocq binary64 arithmetic) inherit the four
 # classical-reals axioms of the standard library through Flocq's definitions
 FLOCQ = set(STDLIB_AXIOMS_ALLOWED)
-AXIOMS = {"C07_open": FLOCQ, "C07_index_parse": FLOCQ, "C07_no_panic": FLOCQ, "C07_record": FLOCQ, "C07_bounded_index": FLOCQ,
+AXIOMS = {"C13_truncation": FLOCQ, "C13_truncated_header": FLOCQ, "C13_record_cut": FLOCQ, "C13_fault": FLOCQ,
+          "C13_fault_open": FLOCQ, "C13_inside_is_prefix": FLOCQ,
+          "C07_open": FLOCQ, "C07_index_parse": FLOCQ, "C07_no_panic": FLOCQ, "C07_record": FLOCQ, "C07_bounded_index": FLOCQ,
           "C07_bounded_noindex": FLOCQ,
           "C06_typed_vs_generic": FLOCQ, "C06_never_wrong_type": FLOCQ, "C06_dispatch": FLOCQ,
           "C05_shape_box": FLOCQ,
